@@ -331,3 +331,176 @@ func ruleBackupClosesFiles(r *Run, p *Program, rule string) {
 	}
 	r.universe(rule, n, 2)
 }
+
+// ruleFirstBucket: the main index file gets its first (empty) bucket exactly when the file is new - decided by the
+// file being empty, not by the number of keys: an existing index with zero keys (never written, or emptied by
+// deletes) must not grow by a bucket on every Open, or the file length and the persisted bucket count drift apart
+// and the next split puts its bucket where lookups do not look.
+func ruleFirstBucket(r *Run, p *Program, rule string) {
+	f := p.Fn("pogreb.openIndex")
+	if !r.anchor(rule, "pogreb.openIndex", f != nil) {
+		return
+	}
+	r.fn(funcKey(f))
+	exts := findWorkDeep(p, f, func(in ssa.Instruction) bool {
+		c, ok := in.(*ssa.Call)
+		return ok && calleeKey(&c.Call) == "(*pogreb.file).extend"
+	})
+	if !r.anchor(rule, "file.extend below openIndex (the first bucket)", len(exts) > 0) {
+		return
+	}
+	for _, nd := range exts {
+		okv := controlledDeep(nd, func(c *Cond) bool {
+			if c.Op == token.ILLEGAL && c.Pos && c.V != nil {
+				if call, ok := strip(c.V).(*ssa.Call); ok && calleeKey(&call.Call) == "(*pogreb.file).empty" {
+					return true
+				}
+			}
+			if eq, ok := c.holdsEq(); ok && eq {
+				for _, pr := range [][2]ssa.Value{{c.X, c.Y}, {c.Y, c.X}} {
+					if isFieldLoad(pr[0], "pogreb.file.size") {
+						if k, isk := constInt(strip(pr[1])); isk && (k == 512 || k == 0) {
+							return true
+						}
+					}
+				}
+			}
+			return false
+		})
+		r.check(okv, rule, "pogreb.openIndex:first-bucket-iff-new-file", p.Pos(instrPos(nd.In)),
+			"the first bucket is appended only when the main index file is empty (a new index)",
+			"openIndex appends a bucket to the main index file under a condition other than 'the file is empty' (e.g. 'no keys'): an existing index with zero keys grows by a bucket on every Open while the persisted bucket count does not; the next split then appends its bucket at a different offset than lookups compute, and keys become unreachable after a clean restart")
+	}
+}
+
+// ruleWorkerTickers: the background worker syncs on the ticker made from BackgroundSyncInterval and compacts on the
+// ticker made from BackgroundCompactionInterval (whichever way the intervals travel to the goroutine).
+func ruleWorkerTickers(r *Run, p *Program, rule string) {
+	n := 0
+	for _, f := range p.ModuleFuncs("") {
+		if f.Pkg != p.MainS {
+			continue
+		}
+		instrsOf(f, func(in ssa.Instruction) {
+			g, ok := in.(*ssa.Go)
+			if !ok {
+				return
+			}
+			body, mc, mcCtx := resolveFuncValue(&Ctx{Fn: f}, g.Call.Value, 0)
+			if body == nil {
+				body = g.Call.StaticCallee()
+			}
+			if body == nil || body.Blocks == nil {
+				return
+			}
+			root := &Ctx{Fn: body, Closure: mc, ClosureCtx: mcCtx}
+			if mc != nil {
+				// free variables of the goroutine body resolve in the spawning function
+				root.ClosureCtx = &Ctx{Fn: f}
+			}
+			all, _ := allNodesFrom(p, root)
+			var sel *Node
+			for nd := range all.Reached {
+				if _, ok := nd.In.(*ssa.Select); ok {
+					nd := nd
+					sel = &nd
+				}
+			}
+			if sel == nil {
+				return
+			}
+			n++
+			s := sel.In.(*ssa.Select)
+			// which interval feeds each channel: the duration handed to the ticker constructor, followed through
+			// parameters (to every caller's argument) and captured variables to a field of Options
+			var optField func(ctx *Ctx, v ssa.Value, d int) string
+			optField = func(ctx *Ctx, v ssa.Value, d int) string {
+				if d > 6 {
+					return "?"
+				}
+				ap := accessPath(ctx, v)
+				for _, name := range []string{"BackgroundSyncInterval", "BackgroundCompactionInterval"} {
+					if strings.HasSuffix(ap.Chain, "."+name) {
+						return name
+					}
+				}
+				root := ap.Root
+				if a, ok := root.(*ssa.Alloc); ok {
+					if st := allocStores(a); len(st) == 1 {
+						root = strip(st[0])
+					}
+				}
+				if u, ok := root.(*ssa.UnOp); ok {
+					if a, ok := u.X.(*ssa.Alloc); ok {
+						if st := allocStores(a); len(st) == 1 {
+							root = strip(st[0])
+						}
+					}
+				}
+				if pa, ok := root.(*ssa.Parameter); ok && ap.Chain == "" {
+					res := "?"
+					for _, arg := range callSiteArgs(p, pa.Parent(), paramIndex(pa)) {
+						af := arg.(interface{ Parent() *ssa.Function }).Parent()
+						r1 := optField(&Ctx{Fn: af}, arg, d+1)
+						if res == "?" {
+							res = r1
+						} else if res != r1 {
+							return "?"
+						}
+					}
+					return res
+				}
+				return "?"
+			}
+			intervalOf := func(ch ssa.Value) string {
+				for _, src := range sources(ch) {
+					c, idx := callResult(src)
+					if c == nil || idx != 0 || len(c.Call.Args) == 0 {
+						continue
+					}
+					if n := optField(sel.Ctx, c.Call.Args[0], 0); n != "?" {
+						return n
+					}
+				}
+				return "?"
+			}
+			for i, st := range s.States {
+				iv := intervalOf(st.Chan)
+				if iv == "?" {
+					continue
+				}
+				// what the case does: walk from the edge "index == i"
+				w := &IPWalk{P: p, SkipEdge: func(ctx *Ctx, b *ssa.BasicBlock, k int) bool {
+					c := edgeCond(b, k)
+					if c == nil {
+						return false
+					}
+					eq, ok := c.holdsEq()
+					if !ok {
+						return false
+					}
+					ci, okc := constInt(c.Y)
+					ex, okx := strip(c.X).(*ssa.Extract)
+					if !okc || !okx || ex.Tuple != ssa.Value(s) || ex.Index != 0 {
+						return false
+					}
+					return (int(ci) == i) != eq
+				}, Visit: func(nd Node) bool { return nd == *sel }}
+				w.Run(root, []Node{*sel})
+				doesSync, doesCompact := false, false
+				for nd := range w.Reached {
+					switch calleeOfNode(nil, nd) {
+					case "(*pogreb.DB).Sync":
+						doesSync = true
+					case "(*pogreb.DB).Compact":
+						doesCompact = true
+					}
+				}
+				want := map[string]string{"BackgroundSyncInterval": "Sync", "BackgroundCompactionInterval": "Compact"}[iv]
+				okv := (want == "Sync" && doesSync && !doesCompact) || (want == "Compact" && doesCompact && !doesSync)
+				r.check(okv, rule, funcKey(f)+":ticker("+iv+")", p.Pos(s.Pos()), "the ticker made from "+iv+" drives "+want, "the background worker's ticker made from Options."+iv+" does not drive DB."+want+" (the two intervals are crossed or one action is missing): with only the compaction interval set the database never compacts and its directory grows with history; with only the sync interval set nothing is synced")
+			}
+		})
+	}
+	r.universe(rule, n, 1)
+}
